@@ -489,6 +489,7 @@ def _fixture_case(case, mon, sigs, hist, metrics):
             mon.fail("coefficient", "the assembled coefficient pairs rotate or reflect with the tissue", got=[cb.real, cb.imag],
                      want=[R(ca).real, R(ca).imag], xf=xf, fit=fit, file=case["file"])
             return
+    metrics["fixture_coef_diff_" + fit] = max(metrics.get("fixture_coef_diff_" + fit, 0.0), float(obs))
     xa = np.array([b.tension for b in fa.internal_big_edges])
     xb = np.array([b.tension for b in fb_.internal_big_edges])
     Ma, ra = fb.augment(A)
